@@ -481,6 +481,51 @@ def stage_classes(ctx, rng, jobs):
         meta.append({"fn": "_kron_diag", "diags": diags, "observed": obs})
     jobs.bad("L3kdiag", mk_shards("l3kdiag", "kdiag_case", cases, "bad_kdiag"), lambda bad, meta=meta: report_lib(ctx, bad, meta, "kron_diag"))
     stats["l3_kron_diag_cases"] = len(cases)
+    # ---- Diag / Root / Matmul / SumBatch _get_indices (element-level formulas; dense data)
+    cases, meta = [], []
+    for j in range(reps):
+        n = rng.choice([1, 2, 3, 4])
+        dg = [rng.randint(-4, 4) for _ in range(n)]
+        rc = rand_pairs(rng, n, n, 6) + [(n - 1, n - 1), (0, n - 1)]
+        op = O.DiagLinearOperator(torch.tensor(dg, dtype=torch.float64))
+        obs = observe(lambda: op._get_indices(LT([p[0] for p in rc]), LT([p[1] for p in rc]))) or [99999]
+        cases.append("DG %s %s %s" % (zlist(dg), pairs_lit(rc), zlist(obs)))
+        meta.append({"fn": "DiagLinearOperator._get_indices", "diag": dg, "rc": rc, "observed": obs})
+    jobs.bad("L3diagop", mk_shards("l3diagop", "diagop_case", cases, "bad_diagop"), lambda bad, meta=meta: report_lib(ctx, bad, meta, "diag_get_indices"))
+    stats["l3_diag_cases"] = len(cases)
+    cases, meta = [], []
+    for j in range(reps):
+        m, rk = rng.choice([1, 2, 3]), rng.choice([1, 2, 3])
+        R = rand_mat(rng, m, rk)
+        rc = rand_pairs(rng, m, m, 6) + [(m - 1, 0)]
+        op = O.RootLinearOperator(R)
+        obs = observe(lambda: op._get_indices(LT([p[0] for p in rc]), LT([p[1] for p in rc]))) or [99999]
+        cases.append("RT0 %s %s %s %s" % (zlit(rk), zlist(ints_of(R)), pairs_lit(rc), zlist(obs)))
+        meta.append({"fn": "RootLinearOperator._get_indices", "root": [m, rk], "rc": rc, "observed": obs})
+    jobs.bad("L3root", mk_shards("l3root", "root_case", cases, "bad_root"), lambda bad, meta=meta: report_lib(ctx, bad, meta, "root_get_indices"))
+    stats["l3_root_cases"] = len(cases)
+    cases, meta = [], []
+    for j in range(reps):
+        m, k, n = rng.choice([1, 2, 3]), rng.choice([1, 2, 3]), rng.choice([1, 2, 3])
+        Lm, Rm = rand_mat(rng, m, k), rand_mat(rng, k, n)
+        rc = rand_pairs(rng, m, n, 6) + [(m - 1, n - 1)]
+        op = O.MatmulLinearOperator(O.DenseLinearOperator(Lm), O.DenseLinearOperator(Rm))
+        obs = observe(lambda: op._get_indices(LT([p[0] for p in rc]), LT([p[1] for p in rc]))) or [99999]
+        cases.append("MM %s %s %s %s %s %s" % (zlit(k), zlit(n), zlist(ints_of(Lm)), zlist(ints_of(Rm)), pairs_lit(rc), zlist(obs)))
+        meta.append({"fn": "MatmulLinearOperator._get_indices", "dims": [m, k, n], "rc": rc, "observed": obs})
+    jobs.bad("L3mm", mk_shards("l3mm", "mm_case", cases, "bad_mm"), lambda bad, meta=meta: report_lib(ctx, bad, meta, "matmul_get_indices"))
+    stats["l3_matmul_cases"] = len(cases)
+    cases, meta = [], []
+    for j in range(reps):
+        nb, m, n = rng.choice([1, 2, 3]), rng.choice([1, 2, 3]), rng.choice([1, 2, 3])
+        base = rand_mat(rng, nb, m, n)
+        rc = rand_pairs(rng, m, n, 6) + [(m - 1, n - 1)]
+        op = O.SumBatchLinearOperator(O.DenseLinearOperator(base))
+        obs = observe(lambda: op._get_indices(LT([p[0] for p in rc]), LT([p[1] for p in rc]))) or [99999]
+        cases.append("SB %s %s %s %s %s %s" % (zlit(nb), zlit(m), zlit(n), zlist(ints_of(base)), pairs_lit(rc), zlist(obs)))
+        meta.append({"fn": "SumBatchLinearOperator._get_indices", "dims": [nb, m, n], "rc": rc, "observed": obs})
+    jobs.bad("L3sb", mk_shards("l3sb", "sb_case", cases, "bad_sb"), lambda bad, meta=meta: report_lib(ctx, bad, meta, "sumbatch_get_indices"))
+    stats["l3_sumbatch_cases"] = len(cases)
     jobs.bad("L3cat", mk_shards("l3cat", "cat_case", cases_cat, "bad_cat"), lambda bad, meta=meta_cat: report_lib(ctx, bad, meta_cat, "cat_locate"))
     def on_split(codes):
         codes = codes or []
